@@ -112,7 +112,7 @@ class BaseCtx:
                 break
         self.fail("exception", "%s%s: %s%s" % (what + ": " if what else "", type(exc).__name__, str(exc)[:100], where))
 
-    def expect_model(self, got, expected, what: str = "result", names=None, allow_extra_names=True, rtol: Optional[float] = None):
+    def expect_model(self, got, expected, what: str = "result", names=None, allow_extra_names=True, rtol: Optional[float] = None, atol: Optional[float] = None):
         """``got`` (ndpoly / ndarray / number) must denote the model array ``expected``."""
         from . import model as M
         import numpoly
@@ -127,6 +127,10 @@ class BaseCtx:
             self.fail("shape", "%s: shape %s, expected %s" % (what, tuple(gm.shape), tuple(exp.shape)))
             return False
         ok = True
+        # native integer / bool results are compared exactly; the float tolerance is for float results only
+        gd = getattr(got, "dtype", None)
+        if rtol is None and gd is not None and gd != object and getattr(gd, "kind", "O") in "iub":
+            rtol = 0
         gl, el = M.flat_items(gm), M.flat_items(exp)
         for i, (g, e) in enumerate(zip(gl, el)):
             e = M.MP.lift(e)
@@ -135,6 +139,8 @@ class BaseCtx:
                 if d.tainted:
                     self.fail("uninitialised", "%s: element %d monomial %s depends on memory never written" % (what, i, _mono_str(mono)))
                     ok = False
+                    continue
+                if atol is not None and d.is_const() and abs(d.const_value()) <= Fraction(atol):
                     continue
                 z, wit = self.is_zero(d, rtol=rtol, scale=e.coeff(mono))
                 if not z:
@@ -245,8 +251,8 @@ class ConcreteCtx(BaseCtx):
         if v == 0:
             return True, None
         if rtol is None:
-            rtol = 1e-9  # native floats (mean, division): rounding is outside every claim; integer results differ by >= 1
-        if rtol is not None:
+            rtol = 1e-9  # native floats (mean, division): rounding is outside every claim
+        if rtol:
             s = abs(scale.const_value()) if scale is not None and scale.is_const() else Fraction(0)
             if abs(v) <= Fraction(rtol) * max(s, Fraction(1)):
                 return True, None
@@ -519,6 +525,10 @@ def _worker_init():
     import warnings
 
     warnings.simplefilter("ignore")
+    import logging
+
+    logging.getLogger("numpoly").setLevel(logging.ERROR)
+    logging.getLogger("numpoly").propagate = False
     sys.setrecursionlimit(10000)
 
 
